@@ -36,6 +36,11 @@ def scenarios(tier):
   out.append(('mux 2 endpoints, 4 calls, one completes before the others overlap',
               {'stack': 'mux', 'endpoints': 2, 'ops': [('call', 'u0'), ('call', 'u1'), ('call', 'u2'), ('call', 'u3')],
                'faults': ['drop'], 'timeout': 0.5025}))
+  # two connections, replies arriving a few bytes at a time (reads on the two connections interleave)
+  for stack in ('thrift', 'mux'):
+    out.append(('%s 2 endpoints, 3 concurrent calls, the kernel hands out 4 bytes per recv' % stack,
+                {'stack': stack, 'endpoints': 2, 'ops': [('burst', 2), ('call', 'k0'), ('call', 'k1'), ('call', 'k2')],
+                 'faults': ['split'], 'timeout': 0.5025, 'max_recv': 4, '_bound': 3}))
   # tags beyond 16 bits (the tag counter jumps as if the tags in between were held by requests that were never answered)
   out.append(('mux 1 endpoint, 3 calls, a tag above 65535 next to tag 2',
               {'stack': 'mux', 'endpoints': 1, 'ops': [('call', 'g0', 0.2025), ('call', 'g1'), ('call', 'g2')],
